@@ -126,7 +126,7 @@ def run(ctx):
 
     # 2b. the same Client object used for a second connection: nothing of the first one (TLS state, capabilities, authentication)
     #     may carry over — the second connection has its own STARTTLS → handshake → AUTHENTICATE sequence
-    for between in ("nothing", "logout", "op", "failed-op"):
+    for between in ("nothing", "logout", "op", "failed-op", "stale-bytes"):
         for first_tls in (True, False):
             for second_tls in (True, False):
                 s = msref.Session()
@@ -135,7 +135,15 @@ def run(ctx):
                 g = srv1.greeting()
                 outs.append(s.connect(b"", [], "user", "pw", starttls=first_tls, server=srv1))
                 reqs.append(msref.req_connect(g, [], "user", "pw", starttls=first_tls, later=list(s.wire.segments)))
-                if between != "nothing":
+                if between == "stale-bytes":
+                    # the first connection ends with bytes received but not consumed (the start of a reply that never completed,
+                    # an unsolicited line): they belong to that connection and must not be read on the next one
+                    s.wire.server = None
+                    stale = b'OK\r\n"IMPLEMENTATION" "old"\r\n"SASL" "GSSAPI"\r\nOK\r\n"half a li'
+                    o = s.op("listscripts", stream=stale, sched=[])
+                    reqs.append(msref.req_op("listscripts", stream=stale, sched=[]))
+                    outs.append(o)
+                elif between != "nothing":
                     nseg = len(s.wire.segments)
                     if between == "failed-op":
                         srv1.faults = {"LISTSCRIPTS": "BYE"}
